@@ -419,6 +419,42 @@ def oracle(ctx, n_hist=None):
             check_step(rep, w, {'useed': useed, 'hseed': hseed, 'step': step, 'ops': done}, rnd, deep=step % 3 == 2)
             if len(rep.violations) > before:
                 break                      # one failing history is enough; later steps repeat the same finding
+    _designed_boundaries(rep)
+
+
+def _designed_boundaries(rep):
+    """Resource restrictions at the boundary: fractional uses whose decimal sum equals the ship's output exactly
+    (the float sum of the parts lands a hair above it) must pass, one hundredth less output must fail with exactly
+    the over-users reported."""
+    from eos import Fit, ModuleHigh, Restriction, Ship, SolarSystem, State
+    from eos.const.eve import AttrId, EffectCategoryId, EffectId
+    from eos.restriction.exception import ValidationError
+    from harness import mem
+    for use_attr, out_attr, rtype, uses, output in (
+            (AttrId.cpu, AttrId.cpu_output, Restriction.cpu, (33.27, 18.1, 5.63), 57.0),
+            (AttrId.power, AttrId.power_output, Restriction.powergrid, (10.3, 10.4), 20.7),
+            (AttrId.cpu, AttrId.cpu_output, Restriction.cpu, (30.3, 20.9, 6.2), 57.4)):
+        for slack in (0, -0.01):
+            ch = mem.MemCache()
+            ch.mkattr(attr_id=use_attr, stackable=True)
+            ch.mkattr(attr_id=out_attr, stackable=True)
+            online = ch.mkeffect(effect_id=EffectId.online, category_id=EffectCategoryId.online)
+            ship_t = ch.mktype(attrs={out_attr: round(output + slack, 2)})
+            fit = Fit(solar_system=SolarSystem(source=mem.source(ch)))
+            fit.ship = Ship(ship_t.id)
+            for v in uses:
+                fit.modules.high.append(ModuleHigh(ch.mktype(attrs={use_attr: v}, effects=[online]).id, state=State.online))
+            case = {'designed': 'resource-boundary', 'uses': list(uses), 'output': round(output + slack, 2)}
+            try:
+                fit.validate()
+                failed = []
+            except ValidationError as e:
+                failed = sorted(int(r) for d in e.data.values() for r in d if int(r) == int(rtype))   # this restriction only
+            rep.case(kind='oracle-designed-boundary', sig=('boundary', int(use_attr), uses, slack))
+            want = [] if slack == 0 else [int(rtype)] * len(uses)
+            if failed != want:
+                rep.violate('resource use %r against output %r: validate() reports restrictions %r, expected %r'
+                            % (uses, round(output + slack, 2), failed, want), case)
 
 
 def search(ctx, broken):
@@ -434,6 +470,12 @@ def replay(path):
         print('replay names a broken obligation; re-run ./check C03 to re-check it')
         return 0
     case = v['case']
+    if 'designed' in case:
+        rep = C.Report()
+        _designed_boundaries(rep)
+        for x in rep.violations[:3]:
+            print('REPRODUCED:', x['what'])
+        return 1 if rep.violations else 0
     print('replaying %d steps of history %s (universe %s): %s' % (len(case['ops']), case['hseed'], case['useed'], v['what'][:300]))
     rep = C.Report()
     rnd = C.random.Random('replay')
